@@ -30,7 +30,7 @@ def strategy(tier):
 def run_case(case):
     out, stats, w, err = run_program(case)
     if not os.environ.get("VF_ALL_RULES"):
-        out.viols = [v for v in out.viols if v.rule.startswith(PREFIX) or v.rule == "unexpected-exception"]
+        out.viols = [v for v in out.viols if v.rule.startswith(PREFIX) or v.rule in ("unexpected-exception", "hang")]
     out.nontrivial = bool(stats["group_waited_for_children"] > 0)
     out.labels = [k for k, v in stats.items() if v] + ["config-" + case["config"]]
     return out
